@@ -342,6 +342,17 @@ class TokStream(runner.Stream):
         reqs.append("tok lex f4908080")
         reqs.append("tok lex ff")
         quick = tier == "quick"
+        # (0) very long lines: a token far to the right (columns around 2^16 and 2^17), pushed there by
+        # blanks, by a block comment, or by many short tokens; a second line checks that the line count is
+        # not disturbed
+        for n in ([65533, 65534, 65535, 65536, 65537, 131071, 131072, 131073] + ([] if quick else [200000, 262144, 262145])):
+            for pad in ("blank", "comment", "tabs"):
+                filler = {"blank": " " * n, "tabs": "\t" * n, "comment": "/*" + "c" * (n - 4) + "*/"}[pad]
+                text = "ab" + filler + "cd {e}\nf g"
+                items = [("T", "ab"), ("T", "cd"), ("S", "{"), ("T", "e"), ("S", "}"), ("T", "f"), ("T", "g")]
+                c = 3 + len(filler)
+                locs = [(1, 1), (1, c), (1, c + 3), (1, c + 4), (1, c + 5), (2, 1), (2, 3)]
+                reqs.append(layout_req(text, items, locs))
         # (i) item lists under K layouts each
         pool = fixed_item_lists()
         n_lists = 330 if quick else 3000
